@@ -3,6 +3,7 @@ import Pxv.Lemmas.Stalemate
 import Pxv.Lemmas.StalemateInClass
 import Pxv.Lemmas.Complex
 import Pxv.Lemmas.PassesSilent
+import Pxv.Lemmas.ComplexCloneable
 import Pxv.Model.BorrowCheck
 /-!
 C02 — rule-abiding blueprints are accepted: the ordering step never gets stuck.
@@ -516,6 +517,23 @@ example : uncontended (exX false false) = false ∧ (complexCheck (exX false fal
 example : (complexCheck (exX true false)).diags = [] ∧
     (complexCheck (exX true false)).g.edges.filter (fun e => !((exX true false).edges.contains e)) = [⟨0, 5, .shared⟩, ⟨5, 2, .move⟩] ∧
     (complexCheck (exX true false)).fuelOut = false := by decide
+
+/-- **C02 — `complex_borrow_check` never rejects an application whose contended values are clone-if-necessary** (the fourth
+    alternative of the property's ownership clause): on every well-formed call graph in which each value that some node takes
+    by value while somebody borrows it — through `&`, `&mut`, or a value that holds a reference to it — is Copy or may be
+    cloned, the pass reports nothing, whatever it parks, clones or revisits on the way. The invariant behind it: the error
+    strategy is never entered, because a cloning round that parks a node has cloned for it (`CK.flag`), and the tables of
+    `OwnershipRelationships` never get an entry for a node that does not exist yet (`CK.fresh`). With
+    `complex_pass_only_clones_cloneable` (Thm/C04): the pass only adds clones of those values. -/
+theorem complex_pass_accepts_when_contended_values_cloneable {g : Graph} (hwf : g.wellFormed = true)
+    (h : contendedCloneable g = true) : (complexCheck g).diags = [] :=
+  complexCheck_no_diag_of_contendedCloneable hwf h
+
+-- non-vacuity: the graph of the doc comment with both values clone-if-necessary meets the hypotheses, is contended, and gets
+-- exactly one clone; with one value that may not be cloned the hypothesis fails (and so does the pass, see above)
+example : (exX true true).wellFormed = true ∧ contendedCloneable (exX true true) = true ∧ uncontended (exX true true) = false ∧
+    (complexCheck (exX true true)).g.size = 6 := by decide
+example : contendedCloneable (exX false false) = false ∧ contendedCloneable (exX true false) = false := by decide
 
 /-! ### the whole borrow checker on rule-abiding call graphs -/
 
